@@ -204,6 +204,13 @@ def run_case(kind, p):
                 pat.get_mask(s)
             if not np.array_equal(pat.get_mask(shape), m):
                 msgs.append(f"{name}: re-query after other shapes changed the mask")
+            # "the template is the real FFT of the mask" also after a parameter of the (already used) object was changed
+            pat.radius = pat.radius * 0.9
+            m2 = pat.get_mask(shape)
+            t2 = pat.get_template(shape)
+            if not np.allclose(t2, np.fft.rfft2(m2), rtol=1e-12, atol=1e-12):
+                msgs.append(f"{name}: after changing the radius of a used pattern the template is not rfft2 of the mask "
+                            f"(max deviation {np.abs(t2 - np.fft.rfft2(m2)).max():.4g})")
         elif kind == "user":
             s = tuple(p["source"])
             t = tuple(p["target"])
